@@ -12,6 +12,7 @@ func init() {
 func VerifC01History() {
 	kind := vPickKind(vndParam("kinds"))
 	w := vNewWorld(vndParam("cap"), kind, vndParam("fam"), Options{})
+	w.allowDelWrite = vndParam("delwrite") == 1
 	T, M := vndParam("T"), vndParam("M")
 	menu := vndParam("menu")
 	maxLen := vndParam("maxLen")
@@ -24,6 +25,10 @@ func VerifC01History() {
 		})
 		vndAssert(err == nil, "transaction failed")
 		vndKnown("KF-merge-reorder", w.mergeReorder())
+		// KF-delete-and-write: a transaction that stores to (or inserts) a row and deletes it has
+		// the deletion applied first; the stores land on the dead row and the next occupant of the
+		// offset sees them
+		vndKnown("KF-delete-and-write", w.kfDelWrite)
 		w.commitModel()
 		w.check(w.c, "after commit")
 	}
